@@ -1,5 +1,8 @@
 import Autd3.Model.Fw
 import Autd3.Gen.DriverConsts
+import Autd3.Lemmas.P02Read
+import Autd3.Lemmas.P02ClearObs
+import Autd3.Lemmas.P02Wire
 /-!
 # C17 — what the controller reads back is what the device is doing
 `decodeState` mirrors `FPGAState::{from_rx, is_thermal_assert, current_mod_segment,
@@ -23,9 +26,6 @@ def decodeState (rx : Nat) : Option (Bool × Nat × Option Nat × Option Nat) :=
 def publishedByte (st curMod curStm stmCycle : Nat) : Nat :=
   (Cpu.FPGA_STATE_READS_FPGA_STATE_ENABLED ||| (fpgaStateWord st curMod curStm stmCycle % 256)) % 256
 
-/-- **state byte round trip**: for every thermal-sensor state, playing modulation segment, playing STM
-segment and single-pattern/STM distinction, the byte the firmware publishes decodes to exactly these
-four facts (the low four bits of the previous register value are arbitrary). -/
 theorem state_byte_roundtrip :
     ∀ (lo : Fin 16) (curMod curStm : Fin 2) (single : Bool),
       decodeState (publishedByte lo.val curMod.val curStm.val (if single then 1 else 2)) =
@@ -33,9 +33,198 @@ theorem state_byte_roundtrip :
               if single then some curStm.val else none, if single then none else some curStm.val) := by
   decide +kernel
 
-/-- with reading disabled the CPU clears bit 7, and the controller then reports `None` -/
 theorem disabled_reads_none : ∀ rx : Fin 256,
     decodeState (rx.val &&& (255 - Cpu.FPGA_STATE_READS_FPGA_STATE_ENABLED)) = none := by
   decide +kernel
 
+/-! ## second layer -/
+open Autd3.P02
+
+/-- round trip for every value of the low byte of the FPGA_STATE register (bits 4–6 are ignored by the
+decoder) -/
+theorem state_byte_roundtrip_full :
+    ∀ (lo : Fin 256) (curMod curStm : Fin 2) (single : Bool),
+      decodeState (publishedByte lo.val curMod.val curStm.val (if single then 1 else 2)) =
+        some (decide (lo.val % 2 = 1), curMod.val,
+              if single then some curStm.val else none, if single then none else some curStm.val) := by
+  decide +kernel
+
+/-- with reading disabled the controller reports `None`, for every (unbounded) previous rx value -/
+theorem disabled_reads_none_all (rx : Nat) :
+    decodeState (rx &&& (255 - Cpu.FPGA_STATE_READS_FPGA_STATE_ENABLED)) = none := by
+  unfold decodeState
+  have : Drv.READS_FPGA_STATE_ENABLED = Cpu.FPGA_STATE_READS_FPGA_STATE_ENABLED := by decide
+  rw [this, bit7_off]
+  simp
+
+/-- **rx gate** (`rx_gate_inv`): unless a firmware-version query is in flight, after `read_fpga_state`
+bit 7 of the rx byte equals `reads_fpga_state`; when set the byte is `0x80 | low byte of FPGA_STATE`,
+when clear the other bits are whatever they were. -/
+theorem rx_gate_inv (s : State) (hu : s.isRxDataUsed = false) :
+    ((readFpgaState s).rxData &&& Cpu.FPGA_STATE_READS_FPGA_STATE_ENABLED ≠ 0 ↔ s.readsFpgaState = true) ∧
+    (s.readsFpgaState = true → (readFpgaState s).rxData =
+        (Cpu.FPGA_STATE_READS_FPGA_STATE_ENABLED ||| (reg s Cpu.ADDR_FPGA_STATE % 256)) % 256) ∧
+    (s.readsFpgaState = false → (readFpgaState s).rxData =
+        s.rxData &&& (255 - Cpu.FPGA_STATE_READS_FPGA_STATE_ENABLED)) ∧
+    (decodeState (readFpgaState s).rxData = none ↔ s.readsFpgaState = false) := by
+  refine ⟨readFpgaState_bit7 s hu, fun h => by rw [readFpgaState_on s hu h], fun h => by rw [readFpgaState_off s hu h], ?_⟩
+  have e : Drv.READS_FPGA_STATE_ENABLED = Cpu.FPGA_STATE_READS_FPGA_STATE_ENABLED := by decide
+  have := readFpgaState_bit7 s hu
+  unfold decodeState
+  rw [e]
+  cases hr : s.readsFpgaState
+  · have h0 : ¬ ((readFpgaState s).rxData &&& Cpu.FPGA_STATE_READS_FPGA_STATE_ENABLED ≠ 0) := by
+      rw [this, hr]; simp
+    simp [h0]
+  · have h0 : (readFpgaState s).rxData &&& Cpu.FPGA_STATE_READS_FPGA_STATE_ENABLED ≠ 0 := by
+      rw [this, hr]
+    simp [h0]
+
+/-- **after a clock update the controller reads what the device is doing**: from any state whose rx
+gate is open (no version query in flight), after `update_with_sys_time` the decoded rx byte is `None`
+exactly when state reading is disabled, and otherwise reports the thermal bit of the FPGA_STATE register,
+the modulation segment the swap chain is playing, and the playing STM segment as a *gain* segment when
+its cycle register is 0 (single pattern) and as an *STM* segment otherwise.  Holds for every state with
+the register file in place (`1 < ctl.size`) and both swap chains on a real segment (`cur ≤ 1`). -/
+theorem fpga_state_after_update (s s' : State) (t : Nat) (hsz : 1 < s.ctl.size) (hu : s.isRxDataUsed = false)
+    (hr : updateWithSysTime s t = .ok s') (hm : s'.modSwap.cur ≤ 1) (hs : s'.stmSwap.cur ≤ 1) :
+    (decodeState s'.rxData = none ↔ s.readsFpgaState = false) ∧
+    (s.readsFpgaState = true →
+      decodeState s'.rxData =
+        some (decide (reg s Cpu.ADDR_FPGA_STATE % 2 = 1), s'.modSwap.cur,
+              (if reg s (Cpu.ADDR_STM_CYCLE0 + s'.stmSwap.cur) = 0 then some s'.stmSwap.cur else none),
+              (if reg s (Cpu.ADDR_STM_CYCLE0 + s'.stmSwap.cur) = 0 then none else some s'.stmSwap.cur))) ∧
+    s'.readsFpgaState = s.readsFpgaState ∧ s'.isRxDataUsed = false := by
+  obtain ⟨h1, h2, h3, h4, _⟩ := update_rx s s' t hsz hu hr
+  have hon : s.readsFpgaState = true →
+      decodeState s'.rxData =
+        some (decide (reg s Cpu.ADDR_FPGA_STATE % 2 = 1), s'.modSwap.cur,
+              (if reg s (Cpu.ADDR_STM_CYCLE0 + s'.stmSwap.cur) = 0 then some s'.stmSwap.cur else none),
+              (if reg s (Cpu.ADDR_STM_CYCLE0 + s'.stmSwap.cur) = 0 then none else some s'.stmSwap.cur)) := by
+    intro hrd
+    rw [h1 hrd, fpgaStateWord_mod]
+    have hlo : reg s Cpu.ADDR_FPGA_STATE % 256 < 256 := Nat.mod_lt _ (by decide)
+    by_cases hc : reg s (Cpu.ADDR_STM_CYCLE0 + s'.stmSwap.cur) = 0
+    · have := state_byte_roundtrip_full ⟨_, hlo⟩ ⟨s'.modSwap.cur, Nat.lt_succ_of_le hm⟩ ⟨s'.stmSwap.cur, Nat.lt_succ_of_le hs⟩ true
+      simp only [publishedByte, if_true] at this
+      rw [hc]
+      simp only [Nat.zero_add, if_true]
+      rw [this]
+      simp only [Nat.mod_mod_of_dvd _ (by decide : 2 ∣ 256)]
+    · have hw : fpgaStateWord (reg s Cpu.ADDR_FPGA_STATE % 256) s'.modSwap.cur s'.stmSwap.cur
+          (reg s (Cpu.ADDR_STM_CYCLE0 + s'.stmSwap.cur) + 1) =
+          fpgaStateWord (reg s Cpu.ADDR_FPGA_STATE % 256) s'.modSwap.cur s'.stmSwap.cur 2 := by
+        unfold fpgaStateWord
+        simp [hc]
+      have := state_byte_roundtrip_full ⟨_, hlo⟩ ⟨s'.modSwap.cur, Nat.lt_succ_of_le hm⟩ ⟨s'.stmSwap.cur, Nat.lt_succ_of_le hs⟩ false
+      simp only [publishedByte, Bool.false_eq_true, if_false] at this
+      rw [hw, this]
+      simp only [hc, if_false, Nat.mod_mod_of_dvd _ (by decide : 2 ∣ 256)]
+  refine ⟨?_, hon, h3, h4⟩
+  cases hrd : s.readsFpgaState
+  · rw [h2 hrd, disabled_reads_none_all]; simp
+  · rw [hon hrd]; simp
+
+/-- **firmware_version() returns the versions and afterwards state reading works as before**
+(`firmware_version_restores`).  Six frames `FirmwareVersion(1) … FirmwareVersion(6)` with fresh message
+ids, received by a device with no query in flight: after frame `k ≤ 5` the rx byte is the `k`-th version
+byte (CPU major `0xA3`, CPU minor `0`, low byte of the VERSION_NUM_MAJOR register, low byte of
+VERSION_NUM_MINOR, high byte of VERSION_NUM_MAJOR = functions); after frame 6 `reads_fpga_state` is what
+it was, `is_rx_data_used` is false, and the whole device state is the initial one except for `ack`,
+`last_msg_id`, the rx byte (which still holds the last version byte until the next
+`read_fpga_state`), the parked copy `readsStore`, and CTL_FLAG (= the CPU's own flag word). -/
+theorem firmware_version_restores (s : State) (f1 f2 f3 f4 f5 f6 : Array Nat) (i1 i2 i3 i4 i5 i6 : Nat)
+    (h1 : IsFirmInfoFrame f1 i1 Cpu.INFO_TYPE_CPU_VERSION_MAJOR) (h2 : IsFirmInfoFrame f2 i2 Cpu.INFO_TYPE_CPU_VERSION_MINOR)
+    (h3 : IsFirmInfoFrame f3 i3 Cpu.INFO_TYPE_FPGA_VERSION_MAJOR) (h4 : IsFirmInfoFrame f4 i4 Cpu.INFO_TYPE_FPGA_VERSION_MINOR)
+    (h5 : IsFirmInfoFrame f5 i5 Cpu.INFO_TYPE_FPGA_FUNCTIONS) (h6 : IsFirmInfoFrame f6 i6 Cpu.INFO_TYPE_CLEAR)
+    (d0 : s.lastMsgId ≠ i1) (d1 : i1 ≠ i2) (d2 : i2 ≠ i3) (d3 : i3 ≠ i4) (d4 : i4 ≠ i5) (d5 : i5 ≠ i6)
+    (hu : s.isRxDataUsed = false) :
+    ∃ s1 s2 s3 s4 s5 s6,
+      ecatRecv s f1 = .ok s1 ∧ ecatRecv s1 f2 = .ok s2 ∧ ecatRecv s2 f3 = .ok s3 ∧
+      ecatRecv s3 f4 = .ok s4 ∧ ecatRecv s4 f5 = .ok s5 ∧ ecatRecv s5 f6 = .ok s6 ∧
+      s1.ack = i1 ∧ s2.ack = i2 ∧ s3.ack = i3 ∧ s4.ack = i4 ∧ s5.ack = i5 ∧ s6.ack = i6 ∧
+      s1.rxData = Cpu.CPU_VERSION_MAJOR % 256 ∧ s2.rxData = Cpu.CPU_VERSION_MINOR % 256 ∧
+      s3.rxData = reg s Cpu.ADDR_VERSION_NUM_MAJOR % 256 ∧ s4.rxData = reg s Cpu.ADDR_VERSION_NUM_MINOR % 256 ∧
+      s5.rxData = (reg s Cpu.ADDR_VERSION_NUM_MAJOR >>> 8) % 256 ∧
+      s6.readsFpgaState = s.readsFpgaState ∧ s6.isRxDataUsed = false ∧
+      s6 = { s with lastMsgId := i6, ack := i6, readsStore := s.readsFpgaState, rxData := s5.rxData,
+                    ctl := s.ctl.setIfInBounds 0 (s.flagsInternal % 65536) } :=
+  ⟨_, _, _, _, _, _, fv_step1 s f1 i1 h1 d0, fv_step2 s f2 _ _ i2 h2 d1, fv_step3 s f3 _ _ i3 h3 d2,
+    fv_step4 s f4 _ _ i4 h4 d3, fv_step5 s f5 _ _ i5 h5 d4, fv_step6 s f6 _ _ i6 h6 d5 hu,
+    rfl, rfl, rfl, rfl, rfl, rfl, rfl, rfl, rfl, rfl, rfl, rfl, hu, rfl⟩
+
+/-- the frames the driver model emits for `FirmwareVersion(ty)` from any transmit buffer are such frames,
+with consecutive message ids that differ (so the hypotheses of `firmware_version_restores` are met by what
+the SDK sends) -/
+theorem firmware_version_frames_from_driver (tx : Wire.Tx) (numTr ty : Nat) (hsz : tx.payload.size = 622) (hty : ty < 256) :
+    ∃ op t sz, Wire.packOp (Wire.Op.ofDg (.firmInfo ty)) numTr tx = .ok (op, t, sz) ∧
+      t.msgId = nextId tx.msgId ∧ t.msgId ≠ tx.msgId ∧ t.payload.size = 622 ∧
+      IsFirmInfoFrame t.frame t.msgId ty := by
+  obtain ⟨op, t, sz, e1, e2, e3, e4⟩ := packOp_firmInfo tx numTr ty hsz hty
+  exact ⟨op, t, sz, e1, e2, by rw [e2]; exact nextId_ne _, e3, by rw [e2]; exact e4⟩
+
+/-- the version bytes of a device whose version registers hold the power-on values
+(`(ENABLED_FEATURES_BITS << 8) | VERSION_NUM_MAJOR`, `VERSION_NUM_MINOR`): 0xA3, 0x00, 0xA3, 0x00, 0x80 -/
+theorem version_bytes_power_on :
+    Cpu.CPU_VERSION_MAJOR % 256 = 0xA3 ∧ Cpu.CPU_VERSION_MINOR % 256 = 0 ∧
+    (((Fpga.ENABLED_FEATURES_BITS <<< 8) ||| Fpga.VERSION_NUM_MAJOR) % 65536) % 256 = Fpga.VERSION_NUM_MAJOR ∧
+    Fpga.VERSION_NUM_MINOR % 256 = 0 ∧
+    ((((Fpga.ENABLED_FEATURES_BITS <<< 8) ||| Fpga.VERSION_NUM_MAJOR) % 65536) >>> 8) % 256 = Fpga.ENABLED_FEATURES_BITS := by
+  decide
+
+/-- **interleaving 1 (honest outcome)**: a `ReadsFPGAState(v)` request that arrives between type 1 and
+type 6 of a version query is LOST: type 6 overwrites the flag with the copy parked at type 1. -/
+theorem firmware_version_interleaved_reads (s : State) (id rx : Nat) (dv d6 : Array Nat)
+    (h6 : u8at d6 FwLayout.FirmInfo_ty_off = Cpu.INFO_TYPE_CLEAR) :
+    ∃ m s6, configureReadsFpgaState (fvState s id rx) dv = .ok (m, Cpu.NO_ERR) ∧
+      m.readsFpgaState = (u8at dv FwLayout.ReadsFPGAState_value_off ≠ 0) ∧
+      firmInfo m d6 = .ok (s6, Cpu.NO_ERR) ∧ s6.readsFpgaState = s.readsFpgaState ∧ s6.isRxDataUsed = false :=
+  ⟨_, _, rfl, by simp, firmInfo_6 _ _ h6, rfl, rfl⟩
+
+/-- **interleaving 2 (honest outcome)**: `Clear` between type 1 and type 6 neither re-opens the rx gate
+nor forgets the parked flag — `clear` does not touch `is_rx_data_used` / `reads_fpga_state_store`.  Until
+type 6 arrives `read_fpga_state` leaves the rx byte alone; when it arrives, `reads_fpga_state` goes back
+to its value from BEFORE the query although `Clear` had reset it to false. -/
+theorem firmware_version_interleaved_clear (s : State) (h : WF s) (id rx : Nat) (d6 : Array Nat)
+    (h6 : u8at d6 FwLayout.FirmInfo_ty_off = Cpu.INFO_TYPE_CLEAR) :
+    ∃ c s6, clear (fvState s id rx) #[] = .ok (c, Cpu.NO_ERR) ∧
+      c.readsFpgaState = false ∧ c.isRxDataUsed = true ∧ c.readsStore = s.readsFpgaState ∧
+      readFpgaState c = c ∧
+      firmInfo c d6 = .ok (s6, Cpu.NO_ERR) ∧ s6.readsFpgaState = s.readsFpgaState ∧ s6.isRxDataUsed = false := by
+  have hw := wf_fvState s id rx h
+  exact ⟨_, _, clear_eq _ hw, rfl, rfl, rfl, readFpgaState_used _ rfl, firmInfo_6 _ _ h6, rfl, rfl⟩
+
+/-- the invariant `WF` used by the C02/C17 theorems is preserved by the read-back path: `read_fpga_state` and
+every `firm_info` request (which never fails) -/
+theorem readback_preserves_wf (s : State) (d : Array Nat) (h : WF s) :
+    WF (readFpgaState s) ∧ ∃ s' a, firmInfo s d = .ok (s', a) ∧ WF s' :=
+  ⟨wf_readFpgaState s h, wf_firmInfo s d h⟩
+
+/-! ## non-vacuity -/
+
+/-- a concrete device state (power-on, 249 transducers, state reading enabled) meets the hypotheses of
+`fpga_state_after_update`, at every time -/
+example (t : Nat) : ∃ s s', 1 < s.ctl.size ∧ s.isRxDataUsed = false ∧ s.readsFpgaState = true ∧
+    updateWithSysTime s t = .ok s' ∧ s'.modSwap.cur ≤ 1 ∧ s'.stmSwap.cur ≤ 1 := by
+  have hp := wf_preClear 249 0 (by decide)
+  have c := cleared_clearResult _ hp
+  have w := wf_clearResult _ hp
+  have e1 := update_of_swapCleared _ _ _ c.modSwap w.modSwap (by decide)
+    (gpioIn { clearResult (preClear 249 0) with readsFpgaState := true }) t
+  have e2 := update_of_swapCleared _ _ _ c.stmSwap w.stmSwap (by decide)
+    (gpioIn { clearResult (preClear 249 0) with readsFpgaState := true }) t
+  refine ⟨{ clearResult (preClear 249 0) with readsFpgaState := true }, _, ?_, rfl, rfl,
+    updateWithSysTime_eq _ t _ _ e1 e2, ?_, ?_⟩
+  · have := w.ctl
+    show 1 < (clearResult (preClear 249 0)).ctl.size
+    omega
+  · rw [updCore_modSwap]; show (clearResult (preClear 249 0)).modSwap.cur ≤ 1; rw [c.modSwap.cur]; decide
+  · rw [updCore_stmSwap]; show (clearResult (preClear 249 0)).stmSwap.cur ≤ 1; rw [c.stmSwap.cur]; decide
+
+/-- the six frames of a version query exist: the driver model produces them from a zeroed transmit buffer -/
+example : ∃ f, IsFirmInfoFrame f 1 Cpu.INFO_TYPE_CPU_VERSION_MAJOR := by
+  obtain ⟨_, t, _, _, e2, _, _, e5⟩ := firmware_version_frames_from_driver {} 249 1 (by simp [Drv.EC_OUTPUT_FRAME_SIZE, DrvLayout.Header_size]) (by decide)
+  have : t.msgId = 1 := by rw [e2]; decide
+  rw [this] at e5
+  exact ⟨_, e5⟩
 end Autd3.C17
